@@ -5,11 +5,12 @@
 // @h c07_children_tuple tier=both bounded=tuple-of-2
 // @h c07_children_newtype tier=both
 // @h c07_children_struct tier=both bounded=2-properties
-// @h c07_children_enum_simple tier=off bounded=1-variant
-// @h c07_children_enum_item tier=off bounded=1-variant
-// @h c07_children_enum_tuple tier=off bounded=1-variant-of-2-children
-// @h c07_children_enum_struct tier=off bounded=1-variant-of-2-children
-// @h c07_children_enum_two_variants tier=off bounded=2-variants
+// @h c07_children_enum_simple tier=native bounded=1-variant
+// @h c07_children_enum_item tier=native bounded=1-variant
+// @h c07_children_enum_tuple tier=native bounded=1-variant-of-2-children
+// @h c07_children_enum_struct tier=native bounded=1-variant-of-2-children
+// @h c07_children_enum_two_variants tier=native bounded=2-variants
+// @h c07_break_cycles_literal_graphs tier=native bounded=8-literal-graphs-of-at-most-4-entries
 // @h c07_children_box tier=both
 // @h c07_children_vec tier=both
 // @h c07_children_map tier=both
@@ -23,6 +24,7 @@
 // @h c07_children_json_value tier=both
 // @h c07_children_native tier=both
 // @canary canary_c07_children
+// @native-canary canary_c07_children
 //
 // C07 -- the by-value child relation used by cycle breaking (`cycles::get_child_ids`).
 //
@@ -40,9 +42,19 @@
 //       exactly the by-value children of the entry (that is how a back edge is re-pointed
 //       at its Box)
 //
-// NOT DECIDED: the Enum arm. `variants.iter_mut().flat_map(..).collect()` does not
-// terminate in CBMC within 15 minutes even for an enum of one variant (harnesses kept below
-// with `tier=off` for the record; they are run by neither tier).
+// The Enum arm is NOT proved: `variants.iter_mut().flat_map(..).collect()` does not terminate
+// in CBMC within 15 minutes even for an enum of one variant. BOUNDED STAND-IN: five literal
+// enums (literal identifiers) are executed natively against the real function (`tier=native`),
+// never counted as proved.
+//
+//   T1  (BOUNDED, native execution only -- the traversal is outside both verifiers: Kani gives
+//       no result on two nodes, Verus rejects Vec<&mut T> / flat_map / partition / closures)
+//       after break_cycles over the whole range, the by-value containment graph (edges =
+//       by_value_children, i.e. NOT through Box / Vec / Map / Set) of each of eight literal
+//       graphs is acyclic: a self loop through Option, a two-struct cycle through Option, cycles
+//       through a tuple, a fixed-length array, a newtype and an enum variant, two cycles
+//       sharing a node, and cycles entered through an unnamed type (Option, array) that is
+//       shared with a type outside the cycle which is visited first.
 //
 // `by_value_children` below is the specification, written over shared references and
 // independently of the code. The entry's kind is concrete per harness, identifiers are
@@ -148,10 +160,13 @@ fn same_multiset(a: &Ids, b: &Ids) -> bool {
     true
 }
 
-fn check_children(mut entry: TypeEntry, expect_n: usize) {
+fn check_children(entry: TypeEntry, expect_n: usize) {
+    check_children_with(entry, expect_n, [kani::any(), kani::any(), kani::any(), kani::any()])
+}
+
+fn check_children_with(mut entry: TypeEntry, expect_n: usize, fresh_v: [u64; 4]) {
     let want = by_value_children(&entry);
     kani::assert(want.n == expect_n, "[C07/SPEC] harness built an entry of unexpected arity");
-    let fresh_v: [u64; 4] = [kani::any(), kani::any(), kani::any(), kani::any()];
     let mut got = Ids::new();
     {
         let mut slots = get_child_ids(&mut entry);
@@ -184,6 +199,21 @@ fn id() -> TypeId {
     TypeId(kani::any())
 }
 
+/// literal identifiers for the `tier=native` instances (no symbolic value is drawn there)
+fn lid(k: u64) -> TypeId {
+    TypeId(100 + k)
+}
+
+macro_rules! hl {
+    ($name:ident, $n:expr, $entry:expr) => {
+        #[kani::proof]
+        #[kani::unwind(8)]
+        fn $name() {
+            check_children_with($entry, $n, [901, 902, 903, 904])
+        }
+    };
+}
+
 macro_rules! h {
     ($name:ident, $n:expr, $entry:expr) => {
         #[kani::proof]
@@ -214,7 +244,7 @@ h!(
         false
     )
 );
-h!(
+hl!(
     c07_children_enum_simple,
     0,
     mk_enum(
@@ -223,25 +253,25 @@ h!(
         vec![mk_variant("A", VariantDetails::Simple)]
     )
 );
-h!(
+hl!(
     c07_children_enum_item,
     1,
     mk_enum(
         "E",
         crate::type_entry::EnumTagType::External,
-        vec![mk_variant("B", VariantDetails::Item(id()))]
+        vec![mk_variant("B", VariantDetails::Item(lid(1)))]
     )
 );
-h!(
+hl!(
     c07_children_enum_tuple,
     2,
     mk_enum(
         "E",
         crate::type_entry::EnumTagType::Untagged,
-        vec![mk_variant("A", VariantDetails::Tuple(vec![id(), id()]))]
+        vec![mk_variant("A", VariantDetails::Tuple(vec![lid(2), lid(3)]))]
     )
 );
-h!(
+hl!(
     c07_children_enum_struct,
     2,
     mk_enum(
@@ -250,21 +280,21 @@ h!(
         vec![mk_variant(
             "B",
             VariantDetails::Struct(vec![
-                mk_prop("x", id(), StructPropertyState::Required),
-                mk_prop("y", id(), StructPropertyState::Required)
+                mk_prop("x", lid(4), StructPropertyState::Required),
+                mk_prop("y", lid(5), StructPropertyState::Required)
             ])
         )]
     )
 );
-h!(
+hl!(
     c07_children_enum_two_variants,
     2,
     mk_enum(
         "E",
         crate::type_entry::EnumTagType::External,
         vec![
-            mk_variant("A", VariantDetails::Item(id())),
-            mk_variant("B", VariantDetails::Item(id()))
+            mk_variant("A", VariantDetails::Item(lid(6))),
+            mk_variant("B", VariantDetails::Item(lid(7)))
         ]
     )
 );
@@ -285,6 +315,124 @@ h!(c07_children_integer, 0, TypeEntryDetails::Integer("u8".to_string()).into());
 h!(c07_children_float, 0, TypeEntryDetails::Float("f64".to_string()).into());
 h!(c07_children_string, 0, TypeEntryDetails::String.into());
 h!(c07_children_json_value, 0, TypeEntryDetails::JsonValue.into());
+
+/// T1: depth-first search over the by-value edges; true when a cycle is reachable from `id`.
+fn by_value_cycle_from(ts: &TypeSpace, id: u64, state: &mut [u8; 16]) -> bool {
+    if id as usize >= state.len() {
+        return false;
+    }
+    match state[id as usize] {
+        1 => return true,
+        2 => return false,
+        _ => {}
+    }
+    state[id as usize] = 1;
+    if let Some(e) = ts.id_to_entry.get(&TypeId(id)) {
+        let kids = by_value_children(e);
+        let mut k = 0;
+        while k < kids.n && k < 4 {
+            if by_value_cycle_from(ts, kids.v[k], state) {
+                return true;
+            }
+            k += 1;
+        }
+    }
+    state[id as usize] = 2;
+    false
+}
+
+fn check_graph(entries: Vec<TypeEntry>, what: &'static str) {
+    let mut ts = TypeSpace::default();
+    let n = entries.len() as u64;
+    for (i, e) in entries.into_iter().enumerate() {
+        ts.id_to_entry.insert(TypeId(i as u64), e);
+    }
+    ts.next_id = n;
+    ts.break_cycles(0..n);
+    let mut id = 0;
+    while id < ts.next_id {
+        let mut state = [0u8; 16];
+        if by_value_cycle_from(&ts, id, &mut state) {
+            panic!("[C07/T1] a containment cycle without heap indirection survives break_cycles: {}", what);
+        }
+        id += 1;
+    }
+}
+
+#[kani::proof]
+fn c07_break_cycles_literal_graphs() {
+    use crate::type_entry::EnumTagType;
+    let req = || StructPropertyState::Required;
+    // N { next: Option<N> }
+    check_graph(
+        vec![mk_struct("N", vec![mk_prop("next", TypeId(1), req())], false), TypeEntryDetails::Option(TypeId(0)).into()],
+        "self loop through Option",
+    );
+    // A { b: B }, B { a: Option<A> }
+    check_graph(
+        vec![
+            mk_struct("A", vec![mk_prop("b", TypeId(1), req())], false),
+            mk_struct("B", vec![mk_prop("a", TypeId(2), req())], false),
+            TypeEntryDetails::Option(TypeId(0)).into(),
+        ],
+        "two structs through Option",
+    );
+    // T { p: (T, bool) }
+    check_graph(
+        vec![
+            mk_struct("T", vec![mk_prop("p", TypeId(1), req())], false),
+            TypeEntryDetails::Tuple(vec![TypeId(0), TypeId(2)]).into(),
+            TypeEntryDetails::Boolean.into(),
+        ],
+        "cycle through a tuple",
+    );
+    // S { a: [S; 2] }
+    check_graph(
+        vec![mk_struct("S", vec![mk_prop("a", TypeId(1), req())], false), TypeEntryDetails::Array(TypeId(0), 2).into()],
+        "cycle through a fixed-length array",
+    );
+    // W(E), enum E { V(W), X }
+    check_graph(
+        vec![
+            mk_newtype("W", TypeId(1), TypeEntryNewtypeConstraints::None),
+            mk_enum(
+                "E",
+                EnumTagType::External,
+                vec![mk_variant("V", VariantDetails::Item(TypeId(0))), mk_variant("X", VariantDetails::Simple)],
+            ),
+        ],
+        "cycle through a newtype and an enum variant",
+    );
+    // P { q: Q, r: R }, Q { p: Option<P> }, R { p: Option<P> }  (entry 3 = Option<P>)
+    check_graph(
+        vec![
+            mk_struct("P", vec![mk_prop("q", TypeId(1), req()), mk_prop("r", TypeId(2), req())], false),
+            mk_struct("Q", vec![mk_prop("p", TypeId(3), req())], false),
+            mk_struct("R", vec![mk_prop("p", TypeId(3), req())], false),
+            TypeEntryDetails::Option(TypeId(0)).into(),
+        ],
+        "two cycles sharing a node",
+    );
+    // Holder { head: Option<Node> }, Node { next: Option<Node> } with ONE shared Option<Node>
+    // entry (type_to_id shares unnamed types), the holder outside the cycle visited first
+    check_graph(
+        vec![
+            mk_struct("Holder", vec![mk_prop("head", TypeId(2), req())], false),
+            mk_struct("Node", vec![mk_prop("next", TypeId(2), req())], false),
+            TypeEntryDetails::Option(TypeId(1)).into(),
+        ],
+        "cycle entered through an unnamed type shared with a type outside the cycle",
+    );
+    // the same with a fixed-length array as the shared unnamed type
+    check_graph(
+        vec![
+            mk_struct("Holder", vec![mk_prop("items", TypeId(2), req())], false),
+            mk_struct("Node", vec![mk_prop("kids", TypeId(2), req())], false),
+            TypeEntryDetails::Array(TypeId(1), 2).into(),
+        ],
+        "cycle entered through a shared fixed-length array",
+    );
+}
 
 #[kani::proof]
 #[kani::unwind(8)]
